@@ -92,6 +92,7 @@ type ModuleIdentity struct {
 
 // TcbInfoDoc describes a TCB Info document.
 type TcbInfoDoc struct {
+	TcbType    int // the document's tcbType member (0 in everything Intel has published so far; the level comparison is the same whatever it says)
 	ID         string
 	Version    int
 	IssueDate  time.Time
@@ -144,8 +145,8 @@ func compsLabelled(v [16]byte, types [16]string) string {
 // Render returns the canonical JSON of the tcbInfo member.
 func (d *TcbInfoDoc) Render() []byte {
 	var sb strings.Builder
-	fmt.Fprintf(&sb, `{"id":%s,"version":%d,"issueDate":%q,"nextUpdate":%q,"fmspc":%s,"pceId":%s,"tcbType":0,"tcbEvaluationDataNumber":17,`,
-		js(d.ID), d.Version, ts(d.IssueDate), ts(d.NextUpdate), js(d.Fmspc), js(d.PceID))
+	fmt.Fprintf(&sb, `{"id":%s,"version":%d,"issueDate":%q,"nextUpdate":%q,"fmspc":%s,"pceId":%s,"tcbType":%d,"tcbEvaluationDataNumber":17,`,
+		js(d.ID), d.Version, ts(d.IssueDate), ts(d.NextUpdate), js(d.Fmspc), js(d.PceID), d.TcbType)
 	fmt.Fprintf(&sb, `"tdxModule":{"mrsigner":%q,"attributes":%q,"attributesMask":%q},`, d.hx(d.Mrsigner), d.hx(d.Attributes), d.hx(d.Mask))
 	sb.WriteString(`"tdxModuleIdentities":[`)
 	for i, m := range d.Identities {
